@@ -39,6 +39,7 @@ ATOM_TEXT = {
     "TS14BAD": "20230230120000", "TS14YR1": "00010101000000", "ATEXP": "@1e30", "DIGITS": "9" * 5000,
     "DEEP": "(" * 200 + "1" + ")" * 200,
     "WORDS": "a b c d", "TWO": "2", "THREE": "3", "NEG1": "-1",
+    "NUL": "a\x00b", "CTRL": "\x1f\x7f\x01", "NLIN": "a\nb", "LONGW": "w" * 5000,
 }
 TITLE_TEXT = {"plain": "Test", "talk": "Talk:x", "nstalk": "Template talk:a/b", "user": "User:foo/bar"}
 UNKNOWN_NAMES = ["#nosuchfunction", "#foo bar"]
